@@ -337,6 +337,10 @@ def gen_plan(j, rng):
         elif r < 0.78:
             op = {"op": "lifetime", "s": rng.choice([None, 30, 3600, 86400, 2 * 86400, 86401])}
             lifetime = op["s"]
+        elif r < 0.80:
+            # a backlog of unread reports, then an explicit re-authentication on the same connection
+            ops.append({"op": "dev_burst", "n": rng.choice([3, 31, 32, 33, 40, 100])})
+            op = {"op": "auth", "cred": "good"} if rng.random() < 0.7 else {"op": "refresh"}
         elif r < 0.88:
             op = {"op": "dev_close", "rst": rng.random() < 0.4}
         else:
